@@ -34,6 +34,17 @@ type c14Amino struct {
 
 func runC14(r *core.Run) {
 	firstCallClause(r, "sequtil.Translate", "sequtil.AminoName")
+	askedAgain(r, []againFunc{
+		{"AminoName", func(in []byte) string {
+			if len(in) != 1 {
+				panic("not one byte")
+			}
+			c, n := sequtil.AminoName(in[0])
+			return c + "/" + n
+		}},
+		{"Translate", func(in []byte) string { return string(sequtil.Translate([]byte("x"), in)) }},
+		{"TranslateReadingFrames", func(in []byte) string { return fmt.Sprintf("%q", sequtil.TranslateReadingFrames(in)) }},
+	}, againInputs([]string{"AC", "ACGTG", "at"}, "", "ATG", "atgGCAtggAAA", "ATGNCA", "AT", "ATGG", "NNN"))
 	racePass(r, "race-sequtil", "ReverseComplement(String), DNATo2Bit/From2Bit, Translate(ReadingFrames), CanonicalSubsequences, AminoName on one shared src")
 
 	core.Clause(r, "codon-table", core.Opts{Rule: "all 64 codons x all 8 upper/lower case patterns against the NCBI table-1 string; non-trivial = all"},
